@@ -10,6 +10,7 @@ import random
 import xml.etree.ElementTree as ET
 from xml.sax import saxutils
 
+from vf.core import hostile_history
 from vf.gen import render
 from vf.oracles import ref_sgml
 
@@ -30,7 +31,7 @@ LEVEL_NOTE = "Trusts ref_sgml.py and the generator; layouts the property leaves 
 DESIGN_REF = "DESIGN.md §3 C02"
 EXHAUSTIVE = {"quick": "all trees <=4 nodes x all per-leaf rendering choices x 3 fillers",
               "thorough": "all trees <=5 nodes x all per-leaf rendering choices x 3 fillers"}
-MIN_COUNTERS = {"quick": {"exhaustive_trees": 1000, "sampled_trees": 300}, "thorough": {"exhaustive_trees": 5000, "sampled_trees": 100000}}
+MIN_COUNTERS = {"quick": {"exhaustive_trees": 1000, "sampled_trees": 300, "after_broken_document": 1500}, "thorough": {"exhaustive_trees": 5000, "sampled_trees": 100000, "after_broken_document": 30000}}
 
 
 def shards(tier):
@@ -76,6 +77,15 @@ def check_one(ctx, tree, text, meta):
     if ref != tree:
         ctx.inconclusive_because(f"reference tokenizer disagrees with generator on {text[:120]!r}")
         return
+    if ctx.replay_case is not None:
+        if isinstance(meta, dict):
+            hostile_history.replay_history(meta.get("broken_before"))
+    else:
+        if ctx.rng.random() < 0.04:
+            # the same tokenizer was just handed a broken document (not judged); the well-formed one must not notice
+            hostile_history.disturb(ctx.rng)
+            ctx.count("after_broken_document")
+        meta = dict(meta or {}, broken_before=list(hostile_history.HISTORY[-40:]))
     case = {"text": text, "tree": tree_json(tree), "meta": meta}
     try:
         root = lib_parse(text)
